@@ -41,6 +41,9 @@ const (
 	// FaultTimeoutFast: the storage gives up on its own (statement or RPC time-out shorter than the request's
 	// deadline) and reports an error that wraps context.DeadlineExceeded while the request context is still live
 	FaultTimeoutFast = "timeout-fast"
+	// FaultCanceled: an operation inside the storage was cancelled (a shared lookup whose leader went away, a pool that
+	// is shutting down): the error wraps context.Canceled although the request itself is alive
+	FaultCanceled = "canceled"
 )
 
 type ctxKeyReq struct{}
@@ -381,6 +384,8 @@ func (s *Store) faultErr(ctx context.Context, fault string) error {
 		defer t.Stop()
 		select {
 		case <-ctx.Done():
+			// what a driver does when the caller's context ends: it reports that context's error
+			return fmt.Errorf("simstore: %w", ctx.Err())
 		case <-t.C:
 		}
 		return fmt.Errorf("simstore: %w", context.DeadlineExceeded)
@@ -388,6 +393,8 @@ func (s *Store) faultErr(ctx context.Context, fault string) error {
 		return s.Sentinel
 	case FaultTimeoutFast:
 		return fmt.Errorf("simstore: statement timeout: %w", context.DeadlineExceeded)
+	case FaultCanceled:
+		return fmt.Errorf("simstore: operation aborted: %w", context.Canceled)
 	default:
 		return ErrInjected
 	}
